@@ -19,13 +19,12 @@ theorem wrap32_id (x : Int) (h : -2147483648 ≤ x ∧ x < 2147483648) : wrapS 3
 theorem wrap64_id (x : Int) (h : -9223372036854775808 ≤ x ∧ x < 9223372036854775808) : wrapS 64 x = x := by
   simp only [wrapS, p64, p63]; split <;> omega
 
-/-- **C26 (partial)**: for all inputs within the property's hypotheses whose acceleration-limited value fits
-the 16-bit velocity output, the generated program commands exactly the limited control law. -/
-theorem motor_partial (i : Inputs) (h : Hyp i) (hw : ¬ AccelWrap i) : program i = spec i := by
+/-- **C26**: for all inputs within the property's hypotheses the generated program commands exactly the limited
+control law (full strength: any acceleration limit, since the `fix:` commit that limits in the temporary first). -/
+theorem motor_exact (i : Inputs) (h : Hyp i) : program i = spec i := by
   obtain ⟨hv, hl, hu, hd1, hd2, ha⟩ := h
   rw [p63'] at hd1 hd2
   rw [n32] at ha
-  simp only [AccelWrap, limited, not_or, Int.not_lt] at hw
   unfold program spec limited
   generalize (i.gain : Int) * ((i.target : Int) - i.position) = d at *
   have hd : wrapS 64 d = d := wrap64_id d ⟨hd1, hd2⟩
@@ -40,22 +39,39 @@ theorem motor_partial (i : Inputs) (h : Hyp i) (hw : ¬ AccelWrap i) : program i
       = max (min d (i.vprev + i.acc)) (i.vprev - i.acc) := by
     simp only [Int.max_def, Int.min_def]; split <;> split <;> split <;> omega
   rw [e2]
+  have hrb : -9223372036854775808 ≤ max (min d (i.vprev + ↑i.acc)) (i.vprev - ↑i.acc) ∧
+      max (min d (i.vprev + ↑i.acc)) (i.vprev - ↑i.acc) < 9223372036854775808 := by
+    simp only [Int.max_def, Int.min_def]; split <;> split <;> omega
   generalize max (min d (i.vprev + ↑i.acc)) (i.vprev - ↑i.acc) = r at *
-  rw [wrap16_id r ⟨hw.1, hw.2⟩]
-  rw [wrap32_id (i.vmax : Int) (by omega), wrap16_id (i.vmax : Int) (by omega),
-      wrap32_id (-(i.vmax : Int)) (by omega), wrap16_id (-(i.vmax : Int)) (by omega)]
-  have e3 : (if (if r > ↑i.vmax then (↑i.vmax : Int) else r) < -↑i.vmax then -(↑i.vmax : Int)
-      else if r > ↑i.vmax then ↑i.vmax else r) = max (min r ↑i.vmax) (-↑i.vmax) := by
+  have e3 : (if r > (i.vmax : Int) then (i.vmax : Int) else r) = min r i.vmax := by
+    simp only [Int.min_def]; split <;> split <;> omega
+  rw [e3]
+  have hw1 : wrapS 64 (min r ↑i.vmax + ↑i.vmax) = min r ↑i.vmax + ↑i.vmax :=
+    wrap64_id _ (by simp only [Int.min_def]; split <;> omega)
+  have hw2 : wrapS 64 (0 - (i.vmax : Int)) = -(i.vmax : Int) := by
+    rw [wrap64_id _ (by omega)]; omega
+  rw [hw1, hw2]
+  have e4 : (if min r ↑i.vmax + ↑i.vmax < 0 then -(i.vmax : Int) else min r ↑i.vmax) = max (min r ↑i.vmax) (-↑i.vmax) := by
     simp only [Int.max_def, Int.min_def]; split <;> split <;> split <;> omega
-  simp only [e3]
+  rw [e4]
+  have h16 : wrapS 16 (max (min r ↑i.vmax) (-↑i.vmax)) = max (min r ↑i.vmax) (-↑i.vmax) :=
+    wrap16_id _ (by simp only [Int.max_def, Int.min_def]; split <;> split <;> omega)
+  rw [h16]
 
-/-- the full statement of the property (any acceleration limit) -/
-def motor_full : Prop := ∀ i : Inputs, Hyp i → program i = spec i
+/-- what the program computed before the `fix:` commit (clamp after the 16-bit store, 32-bit compares) -/
+def programBeforeFix (i : Inputs) : Int :=
+  let d := wrapS 64 ((i.gain : Int) * ((i.target : Int) - i.position))
+  let r := if d > i.vprev + i.acc then i.vprev + i.acc else d
+  let r2 := if wrapS 64 (r + i.acc) < i.vprev then i.vprev - i.acc else r
+  let v1 := wrapS 16 r2
+  let v2 := if v1 > wrapS 32 i.vmax then wrapS 16 i.vmax else v1
+  let v3 := if v2 < wrapS 32 (-(i.vmax : Int)) then wrapS 16 (-(i.vmax : Int)) else v2
+  let v4 := if i.low && decide (v3 < 0) then 0 else v3
+  if i.high && decide (v4 > 0) then 0 else v4
 
-/-- **the unchanged code violates the full statement**: with previous velocity 100, acceleration limit 40000
-and a far-away target the limited value 40100 is stored into the 16-bit output before the velocity clamp reads
-it back, wraps to −25436 and is then clamped to −1000 instead of +1000. -/
-theorem motor_full_refuted : ¬ motor_full := by
+/-- the defect that was repaired: with previous velocity 100, acceleration limit 40000 and a far-away target the
+old code commanded −1000 instead of +1000 (kept so that a regression to the old order is recognisable) -/
+theorem before_fix_refuted : ¬ ∀ i : Inputs, Hyp i → programBeforeFix i = spec i := by
   intro h
   have := h ⟨1, 1000000, 0, 100, 40000, 1000, false, false⟩ (by decide)
   revert this
@@ -85,17 +101,13 @@ theorem spec_accel_limited (i : Inputs) (h : -(i.vmax : Int) ≤ i.vprev ∧ i.v
   simp only [Int.max_def, Int.min_def]
   cases i.low <;> cases i.high <;> simp <;> (repeat' split) <;> omega
 
-/-- even where the control law is missed (16-bit wrap), the velocity limit still holds for the program itself -/
-theorem program_within_vmax (i : Inputs) (hv : i.vmax ≤ 32767) :
-    -(i.vmax : Int) ≤ program i ∧ program i ≤ i.vmax := by
-  unfold program
-  rw [wrap32_id (i.vmax : Int) (by omega), wrap16_id (i.vmax : Int) (by omega),
-      wrap32_id (-(i.vmax : Int)) (by omega), wrap16_id (-(i.vmax : Int)) (by omega)]
-  generalize wrapS 16 _ = v1
-  cases i.low <;> cases i.high <;> simp <;> (repeat' split) <;> omega
+/-- the velocity limit holds for the program itself -/
+theorem program_within_vmax (i : Inputs) (h : Hyp i) : -(i.vmax : Int) ≤ program i ∧ program i ≤ i.vmax := by
+  rw [motor_exact i h]; exact spec_within_vmax i
 
 /-! ### non-vacuity -/
-example : Hyp ⟨3, 5000, 4000, 200, 50, 1000, false, true⟩ ∧ ¬ AccelWrap ⟨3, 5000, 4000, 200, 50, 1000, false, true⟩ := by decide
+example : Hyp ⟨3, 5000, 4000, 200, 50, 1000, false, true⟩ ∧ Hyp ⟨1, 1000000, 0, 100, 40000, 1000, false, false⟩ := by decide
+example : program ⟨1, 1000000, 0, 100, 40000, 1000, false, false⟩ = 1000 := by decide
 example : program ⟨3, 5000, 4000, 200, 50, 1000, false, false⟩ = 250 := by decide
 
 end Ebv.C26
